@@ -78,7 +78,8 @@ pub fn bip39_encode(entropy: &[u8]) -> Option<String> {
 /// BIP-39: phrase -> entropy, strict (five lengths, list words, checksum).
 pub fn bip39_decode(phrase: &str) -> Result<Vec<u8>, String> {
     let words: Vec<&str> = phrase.split_whitespace().collect();
-    let ent_len = entropy_len(words.len()).ok_or_else(|| format!("bad word count {}", words.len()))?;
+    let ent_len =
+        entropy_len(words.len()).ok_or_else(|| format!("bad word count {}", words.len()))?;
     let mut bits: Vec<bool> = Vec::with_capacity(words.len() * 11);
     for w in &words {
         let idx = word_index(w).ok_or_else(|| format!("unknown word {w}"))?;
@@ -107,7 +108,8 @@ pub fn seed(phrase: &str, password: &str) -> [u8; 64] {
     let phrase_n: String = phrase.nfkd().collect();
     let salt: String = format!("mnemonic{password}").nfkd().collect();
     let mut out = [0u8; 64];
-    pbkdf2::pbkdf2::<Hmac<Sha512>>(phrase_n.as_bytes(), salt.as_bytes(), 2048, &mut out).expect("pbkdf2");
+    pbkdf2::pbkdf2::<Hmac<Sha512>>(phrase_n.as_bytes(), salt.as_bytes(), 2048, &mut out)
+        .expect("pbkdf2");
     out
 }
 
@@ -115,7 +117,13 @@ pub fn seed(phrase: &str, password: &str) -> [u8; 64] {
 pub type PathComp = (u32, bool);
 
 pub fn default_path(index: u32) -> Vec<PathComp> {
-    vec![(44, true), (60, true), (0, true), (0, false), (index, false)]
+    vec![
+        (44, true),
+        (60, true),
+        (0, true),
+        (0, false),
+        (index, false),
+    ]
 }
 
 pub fn path_to_string(path: &[PathComp]) -> String {
@@ -136,7 +144,11 @@ fn scalar_from(bytes: &[u8]) -> Option<Scalar> {
 }
 
 fn point_compressed(k: &Scalar) -> Vec<u8> {
-    (ProjectivePoint::GENERATOR * *k).to_affine().to_encoded_point(true).as_bytes().to_vec()
+    (ProjectivePoint::GENERATOR * *k)
+        .to_affine()
+        .to_encoded_point(true)
+        .as_bytes()
+        .to_vec()
 }
 
 /// BIP-32 private derivation from a seed. `None` when the (astronomically
@@ -182,7 +194,9 @@ pub fn public_uncompressed(secret: &[u8; 32]) -> Option<[u8; 65]> {
     if bool::from(k.is_zero()) {
         return None;
     }
-    let p = (ProjectivePoint::GENERATOR * k).to_affine().to_encoded_point(false);
+    let p = (ProjectivePoint::GENERATOR * k)
+        .to_affine()
+        .to_encoded_point(false);
     p.as_bytes().try_into().ok()
 }
 
@@ -239,7 +253,11 @@ pub fn account(phrase: &str, password: &str, path: &[PathComp]) -> Option<Accoun
     let secret = derive(&s, path)?;
     let public = public_uncompressed(&secret)?;
     let address = address_of_secret(&secret)?;
-    Some(Account { secret, public, address })
+    Some(Account {
+        secret,
+        public,
+        address,
+    })
 }
 
 /// Address of the account selected by `path` for raw entropy (used to plant
@@ -265,7 +283,8 @@ mod tests {
             bip39_encode(&[0u8; 16]).unwrap(),
             "abandon abandon abandon abandon abandon abandon abandon abandon abandon abandon abandon about"
         );
-        let e = hex::decode("f585c11aec520db57dd353c69554b21a89b20fb0650966fa0a9d6f74fd989d8f").unwrap();
+        let e = hex::decode("f585c11aec520db57dd353c69554b21a89b20fb0650966fa0a9d6f74fd989d8f")
+            .unwrap();
         let p = bip39_encode(&e).unwrap();
         assert_eq!(
             p,
@@ -286,31 +305,59 @@ mod tests {
 
     #[test]
     fn ganache_account() {
-        let phrase = "myth like bonus scare over problem client lizard pioneer submit female collect";
+        let phrase =
+            "myth like bonus scare over problem client lizard pioneer submit female collect";
         let a = account(phrase, "", &default_path(0)).unwrap();
-        assert_eq!(eip55(&a.address), "0x90F8bf6A479f320ead074411a4B0e7944Ea8c9C1");
+        assert_eq!(
+            eip55(&a.address),
+            "0x90F8bf6A479f320ead074411a4B0e7944Ea8c9C1"
+        );
         assert_eq!(
             hex::encode(a.secret),
             "4f3edf983ac636a65a842ce7c78d9aa706d3b113bce9c46f30d7d21715b23b1d"
         );
         let a1 = account(phrase, "", &default_path(1)).unwrap();
-        assert_eq!(eip55(&a1.address), "0xFFcf8FDEE72ac11b5c542428B35EEF5769C409f0");
+        assert_eq!(
+            eip55(&a1.address),
+            "0xFFcf8FDEE72ac11b5c542428B35EEF5769C409f0"
+        );
     }
 
     #[test]
     fn bip32_vector1() {
         // BIP-32 test vector 1, chain m/0'/1/2'/2/1000000000
         let seed = hex::decode("000102030405060708090a0b0c0d0e0f").unwrap();
-        let k = derive(&seed, &[(0, true), (1, false), (2, true), (2, false), (1000000000, false)]).unwrap();
-        assert_eq!(hex::encode(k), "471b76e389e528d6de6d816857e012c5455051cad6660850e58372a6c3e6e7c8");
+        let k = derive(
+            &seed,
+            &[
+                (0, true),
+                (1, false),
+                (2, true),
+                (2, false),
+                (1000000000, false),
+            ],
+        )
+        .unwrap();
+        assert_eq!(
+            hex::encode(k),
+            "471b76e389e528d6de6d816857e012c5455051cad6660850e58372a6c3e6e7c8"
+        );
     }
 
     #[test]
     fn recover_ganache_sig() {
         let d = keccak256(b"\x19Ethereum Signed Message:\n12Hello World!");
         assert_eq!(d, eip191_digest(b"Hello World!"));
-        let r: [u8; 32] = hex::decode("408790f153cbfa2722fc708a57d97a43b24429724cf060df7c915d468c43bd84").unwrap().try_into().unwrap();
-        let s: [u8; 32] = hex::decode("61c96aac95ce37d7a31087b6634f4a3ea439a9f704b5c818584fa2a32fa83859").unwrap().try_into().unwrap();
+        let r: [u8; 32] =
+            hex::decode("408790f153cbfa2722fc708a57d97a43b24429724cf060df7c915d468c43bd84")
+                .unwrap()
+                .try_into()
+                .unwrap();
+        let s: [u8; 32] =
+            hex::decode("61c96aac95ce37d7a31087b6634f4a3ea439a9f704b5c818584fa2a32fa83859")
+                .unwrap()
+                .try_into()
+                .unwrap();
         let a = recover(&d, &r, &s, true).unwrap();
         assert_eq!(eip55(&a), "0x90F8bf6A479f320ead074411a4B0e7944Ea8c9C1");
     }
